@@ -30,9 +30,23 @@ def fresh_model(n):
                          for i in range(n)])
 
 
+VTYPES = {"float": float, "float64": np.float64, "int64": np.int64, "float32": np.float32, "int32": np.int32}
+
+
 def py_value(op, m):
     import sympy
     k, it = op["kind"], op["items"]
+    vt = op.get("vtype")
+    if vt:
+        # the numbers handed over as numpy scalars / floats instead of Python ints (float32 only where it is exact)
+        conv = VTYPES[vt]
+        ok = lambda v: isinstance(v, int) and (vt != "float32" or abs(v) < 2 ** 24)
+        if k in ("list", "tuple"):
+            it = [conv(v) if ok(v) else v for v in it]
+        elif k == "array":
+            return np.array(it, dtype=conv if vt in ("int64", "int32", "float32") and all(ok(v) for v in it) else float)
+        elif k not in ("array_col", "array2d"):
+            it = [[p_, conv(v) if ok(v) else v] for p_, v in it]
     if k == "list": return [v for v in it]
     if k == "tuple": return tuple(it)
     if k == "array": return np.array(it, dtype=float)
@@ -69,7 +83,7 @@ def run_history(n, ops):
             if isinstance(val, list) and val and not isinstance(val[0], tuple):
                 val[:] = [v + 100000 for v in val]
             elif isinstance(val, np.ndarray):
-                val += 100000.0
+                val[...] = val + 100000
             elif isinstance(val, dict):
                 for k in list(val):
                     val[k] = val[k] + 100000
@@ -188,6 +202,8 @@ def gen_history(rng, maxlen):
             if kind == "dict_mixed" or True:
                 pass
             ops.append(dict(kind=kind, items=items))
+        if rng.random() < 0.3:
+            ops[-1]["vtype"] = list(VTYPES)[int(rng.integers(0, len(VTYPES)))]
     return dict(n=n, ops=ops)
 
 
